@@ -35,7 +35,22 @@ PRIMS["once"] = {
     "thorough": {"depth": 8, "random_count": 60000, "random_len": 50},
 }
 
+PRIMS["barrier"] = {
+    "new_lines": ["new barrier 0", "new barrier 1", "new barrier 2", "new barrier 3"],
+    "quick": {"depth": 10, "random_count": 3000, "random_len": 40},
+    "thorough": {"depth": 13, "random_count": 60000, "random_len": 60},
+}
+
 PROPS = {
+    "C09": {
+        "modules": ["ALock.Props.C09"],
+        "prims": ["barrier"],
+        "fields": ["out", "w", "words", "ev"],
+        "monitors": ["C09"],
+        "assumptions": ["polls are atomic, so the inner mutex is free between operations (the differential run checks the mutex word and lock_ops stay 0) and the slow path of the embedded lock is not exercised",
+                        "generation_id wrap-around (2^64 generations) is outside the model"],
+        "partial": ["thread interleavings; wait_blocking on parked threads"],
+    },
     "C04": {
         "modules": ["ALock.Props.C04"],
         "prims": ["once"],
